@@ -672,6 +672,91 @@ theorem pinv_evt_same (k : K.St) (hi : PInv k) (b : Bool) (hb : b = k.evt) : PIn
 theorem pinv_init (scripts : List (List K.Op)) (nq : Nat) : PInv (K.init scripts nq) :=
   ⟨by simp [K.init], by simp [K.init], by simp [K.init]⟩
 
+/-! ## C12.E.N — the ghost flag on `K`'s own steps -/
+namespace N
+
+theorem reach_k {s : St} (h : Reach s) : K.Reach s.k := by
+  induction h with
+  | init scripts nq h => exact K.Reach.init scripts nq h
+  | @step s1 s2 t _ hs ih =>
+    cases t with
+    | eng =>
+      simp only [step] at hs
+      cases hk : K.step s1.k .eng with
+      | none => simp [hk] at hs
+      | some k1 => simp [hk] at hs; subst hs; exact K.Reach.step .eng ih hk
+    | app j =>
+      obtain ⟨k1, h1, h2⟩ := E.step_k (show E.step _ (.app j) = some _ from hs)
+      exact K.reach_of_isRun (K.Reach.step _ ih h1) h2
+    | async =>
+      obtain ⟨k1, h1, h2⟩ := E.step_k (show E.step _ .async = some _ from hs)
+      exact K.reach_of_isRun (K.Reach.step _ ih h1) h2
+
+theorem link_step {s s' : St} {t : K.Th} (hr : K.Reach s.k) (hl : Link s) (h : step s t = some s') : Link s' := by
+  cases t with
+  | eng =>
+    simp only [step] at h
+    cases hk : K.step s.k .eng with
+    | none => simp [hk] at h
+    | some k1 =>
+      simp [hk] at h; subst h
+      intro ho
+      obtain ⟨h1, h2⟩ := eng_link s.k k1 hk
+      rcases hl ho with hw | hw
+      · exact Or.inl (h2 hw)
+      · exact Or.inr (h1.trans hw)
+  | app j => exact E.link_step hr hl (show E.step _ (.app j) = some _ from h)
+  | async => exact E.link_step hr hl (show E.step _ .async = some _ from h)
+
+theorem link_reach {s : St} (h : Reach s) : Link s := by
+  induction h with
+  | init scripts nq h => intro ho; simp [E.init] at ho
+  | step t hr hs ih => exact link_step (reach_k hr) ih hs
+
+def IsRun (s s' : St) : Prop := ∃ ts, runSched s ts = some s'
+
+theorem isRun_trans {a b c : St} (h1 : IsRun a b) (h2 : IsRun b c) : IsRun a c := by
+  obtain ⟨t1, h1⟩ := h1
+  obtain ⟨t2, h2⟩ := h2
+  refine ⟨t1 ++ t2, ?_⟩
+  induction t1 generalizing a with
+  | nil => simp [runSched] at h1; subst h1; simpa using h2
+  | cons t ts ih =>
+    simp only [runSched, List.cons_append] at h1 ⊢
+    cases hs : step a t with
+    | none => simp [hs] at h1
+    | some a1 => simp only [hs] at h1 ⊢; exact ih h1
+
+theorem passK_isRun (n : Nat) : ∀ s : St, IsRun s { s with k := passK n s.k } := by
+  induction n with
+  | zero => intro s; exact ⟨[], rfl⟩
+  | succ n ih =>
+    intro s
+    simp only [passK]
+    split
+    · cases hk : K.step s.k .eng with
+      | none => exact ⟨[], rfl⟩
+      | some k' =>
+        have h1 : IsRun s { s with k := k' } := ⟨[.eng], by simp [runSched, step, hk]⟩
+        exact isRun_trans h1 (ih { s with k := k' })
+    · exact ⟨[], rfl⟩
+
+/-- every step of `E` (tick event atomic) is a run of `N` (tick event split as in `K`) -/
+theorem step_isRun {s s' : St} {t : K.Th} (h : E.step s t = some s') : IsRun s s' := by
+  cases t with
+  | app j => exact ⟨[.app j], by simp [runSched, step, h]⟩
+  | async => exact ⟨[.async], by simp [runSched, step, h]⟩
+  | eng =>
+    simp only [E.step] at h
+    cases hk : K.step s.k .eng with
+    | none => simp [hk] at h
+    | some k1 =>
+      simp [hk] at h; subst h
+      have h1 : IsRun s { s with k := k1 } := ⟨[.eng], by simp [runSched, step, hk]⟩
+      exact isRun_trans h1 (passK_isRun _ { s with k := k1 })
+
+end N
+
 /-! ## C12.E.G — any commands, GPU port -/
 namespace G
 
